@@ -67,8 +67,8 @@ def sections_post(res):
 
 
 def LAST_END():
-    # the code's convention for the last section: line count (exclusive end)
-    return NLINES
+    # every section end is inclusive: the last section ends at the last line
+    return NLINES - 1
 
 
 SECTION_T = TUPLE(INT, INT, INT, STR)
